@@ -18,6 +18,7 @@ import TetlProofs.C19.Exhaustive
 import TetlProofs.C19.SubExtents
 import TetlProofs.C19.MdArray
 import TetlProofs.C19.TransposeObs
+import TetlProofs.C19.Objects
 namespace Tetl.C19.Props
 open Tetl Tetl.C19 Tetl.C19.Spec Tetl.C19.Lemmas
 
@@ -389,6 +390,130 @@ theorem mdarray_ctor_stride_eq (t : IdxT) (hv : IdxT.Valid t) (e : Ext) (vals s 
   ⟨mdarrayOfMappingStride_eq t hv e vals s he hs hf k hk, mdarrayOfValueStride_eq t hv e vals s he hs hf k hk val,
     mdarrayReadStride_eq t hv e vals s he hs hf c hb idx hr⟩
 example : FitsStride ⟨8, true⟩ [2, 3] [4, 1] ∧ CtrFits (.sized 256) (reqSpanStride [2, 3] [4, 1]) ∧ InRange [2, 3] [1, 2] := by
+  decide
+
+/-! ## mdarray as an object: copy / move construction, assignment, swap
+
+An `mdarray` object is its mapping and its container (`MdArr`).  For a layout_stride mapping the strides are run-time state
+even when every extent is static, for layout_left / layout_right the dynamic extents are. -/
+
+/-- copy construction, move construction and (copy / move) assignment yield an object with the mapping AND the container of
+    the source; `swap(a, b)` leaves `a` with the mapping and container of `b` and vice versa -/
+theorem mdarray_copy_move_assign_swap_eq {M : Type} (a b : MdArr M) :
+    MdArr.copy b = b ∧ MdArr.move b = b ∧ MdArr.assign a b = b ∧ MdArr.swap a b = (b, a) := ⟨rfl, rfl, rfl, rfl⟩
+
+/-- `swap(a, b)` of two mdarrays over layout_stride mappings (same extents type, any strides — also over fully static
+    extents): afterwards `a` reports the extents and strides of the former `b` and `a(idx)` is the element `Σ i_k·s_k` (strides of
+    the former `b`) of the former container of `b`, inside that container; symmetrically for `b` -/
+theorem mdarray_swap_stride_eq (t : IdxT) (hv : IdxT.Valid t) (ea eb : Ext) (va sa vb sb : List Nat) (hea : ExtIs t ea va)
+    (heb : ExtIs t eb vb) (hsa : sa.length = va.length) (hsb : sb.length = vb.length) (hfa : FitsStride t va sa)
+    (hfb : FitsStride t vb sb) (ca cb : List Int) (hca : reqSpanStride va sa ≤ ca.length)
+    (hcb : reqSpanStride vb sb ≤ cb.length) (a b : MdArr StrideMap) (ha : a = ⟨smap ea sa, ca⟩) (hb : b = ⟨smap eb sb, cb⟩) :
+    (MdArr.swap a b).1 = b ∧ (MdArr.swap a b).2 = a
+      ∧ ExtIs t (MdArr.swap a b).1.map.ext vb ∧ ExtIs t (MdArr.swap a b).2.map.ext va
+      ∧ (∀ k (hk : k < sb.length), (MdArr.swap a b).1.map.stride k = .ok ((sb[k] : Nat) : Int))
+      ∧ (∀ k (hk : k < sa.length), (MdArr.swap a b).2.map.stride k = .ok ((sa[k] : Nat) : Int))
+      ∧ (∀ idx, InRange vb idx → ∃ h : offStride sb idx < cb.length,
+          (MdArr.swap a b).1.readStride t (idx.map Int.ofNat) = .ok cb[offStride sb idx])
+      ∧ (∀ idx, InRange va idx → ∃ h : offStride sa idx < ca.length,
+          (MdArr.swap a b).2.readStride t (idx.map Int.ofNat) = .ok ca[offStride sa idx]) := by
+  subst ha hb
+  exact ⟨rfl, rfl, heb, hea, fun k hk => smap_stride_eq eb vb sb heb.1 hsb k hk, fun k hk => smap_stride_eq ea va sa hea.1 hsa k hk,
+    fun idx hr => mdarrayReadStride_eq t hv eb vb sb heb hsb hfb cb hcb idx hr,
+    fun idx hr => mdarrayReadStride_eq t hv ea va sa hea hsa hfa ca hca idx hr⟩
+example : FitsStride ⟨32, true⟩ [2, 3] [3, 1] ∧ FitsStride ⟨32, true⟩ [2, 3] [1, 2] ∧ InRange [2, 3] [1, 2]
+    ∧ offStride [3, 1] [1, 2] = 5 ∧ offStride [1, 2] [1, 2] = 5 ∧ offStride [3, 1] [1, 0] = 3 ∧ offStride [1, 2] [1, 0] = 1 := by decide
+
+/-- `swap(a, b)` of two mdarrays over layout_left / layout_right mappings (the dynamic extents are the state of the mapping):
+    afterwards `a` reports the extents of the former `b` and `a(idx)` is the element at the closed-form offset over those
+    extents of the former container of `b`; symmetrically for `b` -/
+theorem mdarray_swap_contiguous_eq (l : Lay) (t : IdxT) (hv : IdxT.Valid t) (ea eb : Ext) (va vb : List Nat)
+    (hea : ExtIs t ea va) (heb : ExtIs t eb vb) (hfa : Fits t va) (hfb : Fits t vb) (ca cb : List Int)
+    (hca : prod va ≤ ca.length) (hcb : prod vb ≤ cb.length) (a b : MdArr Ext) (ha : a = ⟨ea, ca⟩) (hb : b = ⟨eb, cb⟩) :
+    (MdArr.swap a b).1 = b ∧ (MdArr.swap a b).2 = a
+      ∧ ExtIs t (MdArr.swap a b).1.map vb ∧ ExtIs t (MdArr.swap a b).2.map va
+      ∧ (∀ idx, InRange vb idx → ∃ h : offSpec l vb idx < cb.length,
+          (MdArr.swap a b).1.read l t (idx.map Int.ofNat) = .ok cb[offSpec l vb idx])
+      ∧ (∀ idx, InRange va idx → ∃ h : offSpec l va idx < ca.length,
+          (MdArr.swap a b).2.read l t (idx.map Int.ofNat) = .ok ca[offSpec l va idx]) := by
+  subst ha hb
+  exact ⟨rfl, rfl, heb, hea, fun idx hr => mdarrayRead_eq l t hv eb vb heb hfb cb hcb idx hr,
+    fun idx hr => mdarrayRead_eq l t hv ea va hea hfa ca hca idx hr⟩
+example : Fits ⟨32, true⟩ [2, 3] ∧ Fits ⟨32, true⟩ [4, 1] ∧ InRange [4, 1] [3, 0] := by decide
+
+/-- assignment (`a = b`, copy or move) and copy / move construction from `b`: the result reports the extents and strides of
+    `b` and reads the elements of `b`'s container at `b`'s offsets — whatever mapping and container `a` had before -/
+theorem mdarray_assign_eq (t : IdxT) (hv : IdxT.Valid t) (a : MdArr StrideMap) (eb : Ext) (vb sb : List Nat)
+    (heb : ExtIs t eb vb) (hsb : sb.length = vb.length) (hfb : FitsStride t vb sb) (cb : List Int)
+    (hcb : reqSpanStride vb sb ≤ cb.length) (b : MdArr StrideMap) (hb : b = ⟨smap eb sb, cb⟩) :
+    ∀ r ∈ [MdArr.assign a b, MdArr.copy b, MdArr.move b],
+      r = b ∧ ExtIs t r.map.ext vb ∧ (∀ k (hk : k < sb.length), r.map.stride k = .ok ((sb[k] : Nat) : Int))
+        ∧ (∀ idx, InRange vb idx → ∃ h : offStride sb idx < cb.length,
+            r.readStride t (idx.map Int.ofNat) = .ok cb[offStride sb idx]) := by
+  subst hb
+  intro r hr
+  have hrb : r = ⟨smap eb sb, cb⟩ := by
+    simp only [List.mem_cons, List.not_mem_nil, or_false] at hr
+    rcases hr with h | h | h <;> rw [h] <;> rfl
+  subst hrb
+  exact ⟨rfl, heb, fun k hk => smap_stride_eq eb vb sb heb.1 hsb k hk,
+    fun idx hr => mdarrayReadStride_eq t hv eb vb sb heb hsb hfb cb hcb idx hr⟩
+
+/-- the same for layout_left / layout_right -/
+theorem mdarray_assign_contiguous_eq (l : Lay) (t : IdxT) (hv : IdxT.Valid t) (a : MdArr Ext) (eb : Ext) (vb : List Nat)
+    (heb : ExtIs t eb vb) (hfb : Fits t vb) (cb : List Int) (hcb : prod vb ≤ cb.length) (b : MdArr Ext) (hb : b = ⟨eb, cb⟩) :
+    ∀ r ∈ [MdArr.assign a b, MdArr.copy b, MdArr.move b],
+      r = b ∧ ExtIs t r.map vb
+        ∧ (∀ idx, InRange vb idx → ∃ h : offSpec l vb idx < cb.length, r.read l t (idx.map Int.ofNat) = .ok cb[offSpec l vb idx]) := by
+  subst hb
+  intro r hr
+  have hrb : r = ⟨eb, cb⟩ := by
+    simp only [List.mem_cons, List.not_mem_nil, or_false] at hr
+    rcases hr with h | h | h <;> rw [h] <;> rfl
+  subst hrb
+  exact ⟨rfl, heb, fun idx hr => mdarrayRead_eq l t hv eb vb heb hfb cb hcb idx hr⟩
+
+/-! ## default-constructed mappings -/
+
+/-- `layout_left::mapping()` / `layout_right::mapping()` (and the extents member of `layout_stride::mapping()`) hold a
+    value-initialised extents object: it reports the static extents and 0 for every dynamic extent (`defaultVals`), so every
+    theorem about a mapping over an extents object with these values applies -/
+theorem default_mapping_extents_eq (t : IdxT) (hv : IdxT.Valid t) (p : Pat) (hm : ∀ x ∈ defaultVals p, x ≤ t.maxV) :
+    ExtIs t (contigDefault p) (defaultVals p) ∧ Consistent p (defaultVals p) :=
+  ⟨default_extIs t hv p hm, defaultVals_consistent p⟩
+example : defaultVals [some 2, none, some 4] = [2, 0, 4] ∧ defaultVals [some 2, some 3] = [2, 3] := by decide
+
+/-- `layout_stride::mapping()` ([mdspan.layout.stride.cons]/1, after fix 36bdc9a): the loop of `default_strides()` never
+    leaves the array; the mapping has the default extents and the strides of `layout_right::mapping<extents_type>()` —
+    `stride(r)` agrees with the default layout_right mapping for every `r`, and the two mappings compare equal -/
+theorem stride_default_ctor_eq (t : IdxT) (hv : IdxT.Valid t) (p : Pat) (hf : Fits t (defaultVals p)) :
+    ∃ m, StrideMap.default t p = .ok m ∧ m.ext = contigDefault p ∧ ExtIs t m.ext (defaultVals p)
+      ∧ m.strides = (stridesSpec .right (defaultVals p)).map Int.ofNat
+      ∧ (∀ r, r < p.length → m.stride r = stride .right t (contigDefault p) r
+          ∧ m.stride r = .ok ((strideRight (defaultVals p) r : Nat) : Int))
+      ∧ m.eqMapping t t (contigDefault p) (stride .right t (contigDefault p)) (mapIdx .right t (contigDefault p)) = .ok true := by
+  have hm : ∀ x ∈ defaultVals p, x ≤ t.maxV := by
+    intro x hx
+    obtain ⟨k, hk, rfl⟩ := List.getElem_of_mem hx
+    exact fits_elem t _ hf k hk
+  have he : ExtIs t (Ext.default p) (defaultVals p) := default_extIs t hv p hm
+  have hlen : p.length = (defaultVals p).length := consistent_length p _ (defaultVals_consistent p)
+  have hsl : (stridesSpec .right (defaultVals p)).length = (defaultVals p).length := by simp [stridesSpec]
+  refine ⟨_, strideDefault_eq t hv p hf, rfl, he, rfl, ?_, ?_⟩
+  · intro r hr
+    have hr' : r < (defaultVals p).length := by omega
+    have h1 := smap_stride_eq (Ext.default p) (defaultVals p) (stridesSpec .right (defaultVals p)) he.1 hsl r (by omega)
+    have h2 := stride_eq .right t hv (Ext.default p) (defaultVals p) he hf r hr'
+    have h3 : (stridesSpec .right (defaultVals p))[r]'(by omega) = strideRight (defaultVals p) r := by
+      simp [stridesSpec, strideSpec]
+    rw [h3] at h1
+    exact ⟨by rw [h1]; exact h2.symm, h1⟩
+  · have := smap_eq_contig t t hv hv .right (Ext.default p) (Ext.default p) (defaultVals p) (defaultVals p)
+      (stridesSpec .right (defaultVals p)) he he rfl hsl hf
+    show StrideMap.eqMapping t t _ (Ext.default p) (stride .right t (Ext.default p)) (mapIdx .right t (Ext.default p)) = _
+    simpa using this
+example : Fits ⟨32, true⟩ (defaultVals [some 2, some 3]) ∧ stridesSpec .right (defaultVals [some 2, some 3]) = [3, 1]
+    ∧ Fits ⟨8, false⟩ (defaultVals [some 2, none, some 4]) ∧ stridesSpec .right (defaultVals [some 2, none, some 4]) = [0, 4, 1] := by
   decide
 
 /-! ## extents constructors -/
